@@ -118,6 +118,59 @@ CLAIMED = {
              "ReaderThread internals, serial_asyncio, the real asyncio loop, real sockets, the "
              "asyncio connect loops and TCPTransport.run are outside; one known finding (watchdog "
              "slack) is listed in known_findings.json"),
+    "C04": dict(
+        text="inductive one-step equivalence of the real handlers with an independent reference "
+             "transition function (node/child/value tree, attributes with fallbacks, desired "
+             "state, hold queue, OTA stores) plus the exact-callback rule (count, arguments, state "
+             "seen inside the callback, raising callback), from arbitrary pre-states in Inv with "
+             "unbounded header integers; equality decided by z3 on every feasible path",
+        note="reference semantics in verifspec/refmodel.py (DESIGN Appendix C); Inv instantiated "
+             "on the listed shapes; payload length bounded; rejected lines are C01's subject"),
+    "C05": dict(
+        text="inductive one-step comparison of the ordered emissions of the real pump with the "
+             "replies prescribed by the reference model (value request, config, local time via an "
+             "uninterpreted timegm(localtime()), id response, discover, presentation request, "
+             "reboot, wake-up burst, OTA); every emitted line is proved canonical, valid for the "
+             "configured version (real validator and independent serial-API predicate) and "
+             "addressed to the inbound node or broadcast",
+        note="the ack flag of replies is not prescribed and not compared; states in Inv on the "
+             "listed shapes; controller values restricted to wire-carriable text"),
+    "C07": dict(
+        text="inductive one-step proof that no non-stream command leaves the gateway for a node "
+             "that was smart-sleeping before the step unless the inbound message is that node's "
+             "wake-up announcement, that nothing is parked for a node that is awake, and that "
+             "controller calls (set_child_value, update_fw) never emit to a sleeping node; two "
+             "nodes with symbolic ids cover every arrival order as a sequence of such steps",
+        note="versions 2.0-2.2; shapes with one sleeping and one awake node; Inv B5 checked on "
+             "every post-state"),
+    "C08": dict(
+        text="inductive one-step equivalence with the reference hold/flush rules (wake-up burst = "
+             "withheld lines in order + one set per reported and pending value type as a multiset, "
+             "desired entries cleared exactly by the matching report, requests answered from the "
+             "desired state) plus a call-time harness: set_child_value on a sleeping node with "
+             "arbitrary text and value-type spellings is refused or is delivered at the next two "
+             "wake-ups",
+        note="node version equal to / older than the gateway's; values up to 2 code points; "
+             "versions 2.0-2.2"),
+    "C10": dict(
+        text="inductive one-step equivalence of respond_fw_config/respond_fw/_get_fw with the "
+             "reference session automaton (requested -> offered -> fetching) for symbolic hex "
+             "payloads (well-formed, truncated, odd, non-hex), node ids, firmware ids and stores, "
+             "and of every update_fw call form (single id, list, unknown id, missing firmware, "
+             "non-integer type, same firmware) with its prescribed effect on the stores and the "
+             "reboot flags",
+        note="a block request for another existing firmware and a block index beyond the image "
+             "are not prescribed by the statement: the reference follows the implementation there; "
+             "load_fw stubbed (Intel-HEX not encoded); two nodes, one image"),
+    "C19": dict(
+        text="symbolic execution of the real data_received / pyserial Packetizer framing over a "
+             "symbolic byte stream cut at symbolic positions (lines delivered == split of the whole "
+             "stream at LF, tail stays buffered), and a two-line comparison of the threaded gateway "
+             "(both lines queued before the pump runs vs one after the other) with the asyncio "
+             "gateway on state and ordered emissions from arbitrary pre-states",
+        note="UTF-8 decoding kept as a function of the line's bytes; second line restricted to the "
+             "kinds with a direct reply; one known finding (emission order for lines arriving in "
+             "one chunk) is listed in known_findings.json"),
 }
 
 NOT_YET = "check not landed yet (build in progress); will be decided by the same solver-based engine"
